@@ -85,6 +85,10 @@ func (m *Model) Layout() {
 			}
 		}
 	}
+	if len(l.characters) > 0 {
+		// the text does not end with a newline: keep the last line
+		m.lines = append(m.lines, l)
+	}
 }
 
 // Scrolls the pager down n lines, if it can
